@@ -343,7 +343,7 @@ class Session:
     """One real fzf process under a fresh pty."""
 
     def __init__(self, args, lines=None, rows=12, cols=40, env=None, listen=True, stdin_data=None, keep_stdin=False,
-                 binary=None, sep="\n", cwd=None, api_key=None, hook_points=None, hook_auto=()):
+                 binary=None, sep="\n", cwd=None, api_key=None, hook_points=None, hook_auto=(), job_control=False):
         os.makedirs(WORKROOT, exist_ok=True)
         self.tmp = tempfile.mkdtemp(prefix="s-", dir=WORKROOT)
         self.tmpdir = os.path.join(self.tmp, "tmp")
@@ -353,6 +353,12 @@ class Session:
         rout, wout = os.pipe()
         rerr, werr = os.pipe()
         argv = ["fzf"] + (["--listen"] if listen else []) + list(args)
+        self.job_control = job_control
+        if job_control:
+            # fzf as a foreground job of a job-control shell (its own process group, parent in the same session): only then
+            # does CTRL-Z (SIGTSTP to the group) stop it; the shell puts it back in the foreground as soon as it has stopped
+            script = ('set -m; "$0" "$@"; code=$?; while [ $code -gt 128 ] && jobs %1 >/dev/null 2>&1; do fg %1 >/dev/null 2>&1; code=$?; done; exit $code')
+            argv = ["bash", "-c", script, binary or FZF] + argv[1:]
         e = base_env(self.tmpdir, env)
         e["HOME"] = self.tmp
         self.hooks = None
@@ -371,7 +377,7 @@ class Session:
                     if fd > 2:
                         os.close(fd)
                 os.chdir(cwd or self.tmp)
-                os.execve(binary or FZF, argv, e)
+                os.execve("/bin/bash" if job_control else (binary or FZF), argv, e)
             finally:
                 os._exit(127)
         for fd in (rin, wout, werr):
@@ -488,6 +494,11 @@ class Session:
         t0 = time.time()
         while time.time() - t0 < deadline:
             p = _listening_port(self.pid)
+            if not p and self.job_control:
+                for child in descendants(self.pid):
+                    p = _listening_port(child)
+                    if p:
+                        break
             if p:
                 self.port = p
                 return p
